@@ -345,18 +345,37 @@ def product_law_case(translated=False):
             n0 = len(env.ctx.rand_calls)
         n_out, b_points, _ = D._sample_uniform_b_points(2)
         out = dict(n_out=n_out, b=b_points, a=a)
+        # the public entry point must route a product whose first factor's measure depends on the second
+        # factor through this acceptance step
+        used = []
+        orig = D._sample_uniform_b_points
+
+        def rec(*a_, **k_):
+            used.append(1)
+            return orig(*a_, **k_)
+
+        D._sample_uniform_b_points = rec
+        npc = len(env.ctx.pc) if env.symbolic else 0
+        try:
+            D.sample_random_uniform(n=1)
+        except Exception as e:  # noqa  (unwinding etc. are BaseException-free here; a real failure is C01's business)
+            out["sample_exc"] = repr(e)
+        out["acceptance_step_used"] = bool(used)
+        out["is_constant_flag"] = bool(D._is_constant)
+        if env.symbolic:
+            out["npc"] = npc
         if env.symbolic:
             from symtorch.harness import _zr
             calls = env.ctx.rand_calls[n0:]
             out["bdraw"] = [_zr(v) for v in calls[0][2]]
             out["udraw"] = [_zr(v) for v in calls[1][2]]
-            out["pc"] = list(env.ctx.pc)
+            out["pc"] = list(env.ctx.pc)[:out["npc"]]
             out["lb"], out["ub"] = lbv, ubv
         return out
 
     def goals(o, L, env):
+        yield "dependent_product_sampled_through_acceptance_step", o["acceptance_step_used"] and not o["is_constant_flag"]
         if not L.symbolic:
-            yield "replay_has_no_law_goal", True
             return
         import z3
         a = o["a"]
